@@ -49,6 +49,13 @@ async fn restart_restores_exactly_the_active_handlers() {
         let id = f.id.to_string();
         wait_for(&store, |fs| fs.iter().any(|x| x.topic == format!("{}.registered", name) && meta_str(x, "handler_id") == id), &format!("{}.registered", name)).await;
         f } };
+    // registered first: a handler that resumes after a marker frame which is later removed - whatever happens to it at the restart must not
+    // keep the handlers registered after it from coming back
+    let marker = store.append(Frame::builder("marker", ctx).build()).unwrap();
+    let cursor_script = format!(r#"{{resume_from: "{}", run: {{|frame| if $frame.topic != "ping" {{ return }}; "pong" }}}}"#, marker.id);
+    let cursor_script: &'static str = Box::leak(cursor_script.into_boxed_str());
+    let cursor = reg("cursor", cursor_script).await;
+    store.remove(&marker.id).unwrap();
     let plain = reg("plain", PONG).await;
     let h1 = reg("h", PONG).await;
     let h2 = reg("h", PONG2).await;
@@ -65,7 +72,7 @@ async fn restart_restores_exactly_the_active_handlers() {
     wait_for(&store, |fs| fs.iter().any(|x| x.topic == "echoall.out" && x.context_id == ctx2), "echoall.out").await;
     // a trigger answered BEFORE the restart must not be answered again after it (handlers resume from the tail by default)
     let old_ping = store.append(Frame::builder("ping", ctx).build()).unwrap();
-    wait_for(&store, |fs| fs.iter().filter(|x| meta_str(x, "frame_id") == old_ping.id.to_string()).count() >= 3, "three answers to the old ping").await;
+    wait_for(&store, |fs| fs.iter().filter(|x| meta_str(x, "frame_id") == old_ping.id.to_string()).count() >= 4, "four answers to the old ping").await;
     let before = quiet(&store).await;
 
     // ---- restart on a copy of the directory ----
@@ -73,7 +80,7 @@ async fn restart_restores_exactly_the_active_handlers() {
     copy_dir(&d.path().join("s0"), &to);
     let store2 = Store::new(to);
     { let store = store2.clone(); let engine = xs::nu::Engine::new().unwrap(); tokio::spawn(async move { let _ = xs::handlers::serve(store, engine).await; }); }
-    let want = [("plain", &plain), ("h", &h2), ("chat.relay", &dotted)];
+    let want = [("cursor", &cursor), ("plain", &plain), ("h", &h2), ("chat.relay", &dotted)];
     for (name, f) in want.iter() {
         let id = f.id.to_string();
         let nbefore = before.iter().filter(|x| x.topic == format!("{}.registered", name) && meta_str(x, "handler_id") == id).count();
@@ -88,7 +95,7 @@ async fn restart_restores_exactly_the_active_handlers() {
         assert!(!seen.contains("echoall."), "C14: handler {} was invoked for a frame it emitted itself ({}) after a restart", echo.id, seen);
     }
     let ping = store2.append(Frame::builder("ping", ctx).build()).unwrap();
-    wait_for(&store2, |fs| fs.iter().filter(|x| meta_str(x, "frame_id") == ping.id.to_string()).count() >= 3, "three answers to the new ping").await;
+    wait_for(&store2, |fs| fs.iter().filter(|x| meta_str(x, "frame_id") == ping.id.to_string()).count() >= 4, "four answers to the new ping").await;
     let all = quiet(&store2).await;
     let mut answered: Vec<String> = all.iter().filter(|x| meta_str(x, "frame_id") == ping.id.to_string()).map(|x| meta_str(x, "handler_id")).collect();
     answered.sort();
@@ -96,7 +103,10 @@ async fn restart_restores_exactly_the_active_handlers() {
     expect.sort();
     assert_eq!(answered, expect, "C17: after a restart exactly the handlers that were active answer, with the same ids (replaced: {}, unregistered: {})", h1.id, gone.id);
     let again = all.iter().filter(|x| meta_str(x, "frame_id") == old_ping.id.to_string()).count();
-    assert_eq!(again, 3, "C17: a historical trigger is not executed again after a restart");
+    // (the cursor handler resumes after its marker and so sees the old ping again: one extra answer from it, by its own choice of resume point)
+    let again_others = all.iter().filter(|x| meta_str(x, "frame_id") == old_ping.id.to_string() && meta_str(x, "handler_id") != cursor.id.to_string()).count();
+    assert_eq!(again_others, 3, "C17: a historical trigger is not executed again after a restart (handlers resuming from the tail)");
+    let _ = again;
     let new_regs = all.len() - before.len();
     assert!(!all[before.len()..].iter().any(|x| x.topic == "gone.registered" || (x.topic == "h.registered" && meta_str(x, "handler_id") == h1.id.to_string())),
             "C17: nothing that was unregistered or replaced comes back ({} new frames)", new_regs);
@@ -118,7 +128,14 @@ async fn restart_restores_generators_and_commands() {
     wait_for(&store, |fs| fs.iter().any(|x| x.topic == "wait.start") && fs.iter().any(|x| x.topic == "nohash.spawn.error"), "wait.start and nohash.spawn.error").await;
     let d1 = store.append(Frame::builder("three.define", ctx).hash(store.cas_insert(r#"{run: {|frame| ["old"] }}"#).await.unwrap()).build()).unwrap();
     let d2 = store.append(Frame::builder("three.define", ctx).hash(store.cas_insert(r#"{run: {|frame| ["new"] }}"#).await.unwrap()).build()).unwrap();
+    // `greet`: a valid definition followed by an invalid redefinition - the valid one stays the active one, also after a restart
+    let g1 = store.append(Frame::builder("greet.define", ctx).hash(store.cas_insert(r#"{run: {|frame| ["hello"] }}"#).await.unwrap()).build()).unwrap();
+    let _g2 = store.append(Frame::builder("greet.define", ctx).hash(store.cas_insert("{run: {|frame| ").await.unwrap()).build()).unwrap();
+    // `flaky`: a command one of whose calls failed at run time is still a defined command
+    let fl = store.append(Frame::builder("flaky.define", ctx).hash(store.cas_insert(r#"{run: {|frame| if ($frame.meta?.fail? | default false) { error make {msg: "boom"} }; ["fine"] }}"#).await.unwrap()).build()).unwrap();
     tokio::time::sleep(Duration::from_millis(500)).await;
+    store.append(Frame::builder("flaky.call", ctx).meta(serde_json::json!({"fail": true})).build()).unwrap();
+    wait_for(&store, |fs| fs.iter().any(|x| x.topic == "flaky.error"), "flaky.error before the restart").await;
     let old_call = store.append(Frame::builder("three.call", ctx).build()).unwrap();
     wait_for(&store, |fs| fs.iter().any(|x| x.topic == "three.complete"), "three.complete before the restart").await;
     let before = quiet(&store).await;
@@ -134,6 +151,12 @@ async fn restart_restores_generators_and_commands() {
     tokio::time::sleep(Duration::from_millis(600)).await;
     let call = store2.append(Frame::builder("three.call", ctx).build()).unwrap();
     wait_for(&store2, |fs| fs.iter().any(|x| x.topic == "three.complete" && meta_str(x, "frame_id") == call.id.to_string()), "C17: the command is defined again after the restart").await;
+    let gcall = store2.append(Frame::builder("greet.call", ctx).build()).unwrap();
+    let fcall = store2.append(Frame::builder("flaky.call", ctx).build()).unwrap();
+    wait_for(&store2, |fs| fs.iter().any(|x| x.topic == "greet.complete" && meta_str(x, "frame_id") == gcall.id.to_string() && meta_str(x, "command_id") == g1.id.to_string()),
+             "C17: a command whose latest definition was invalid keeps its last valid definition across a restart").await;
+    wait_for(&store2, |fs| fs.iter().any(|x| x.topic == "flaky.complete" && meta_str(x, "frame_id") == fcall.id.to_string() && meta_str(x, "command_id") == fl.id.to_string()),
+             "C17: a command with a failed call in its history is still defined after a restart").await;
     let all = quiet(&store2).await;
     let res: Vec<&Frame> = all.iter().filter(|x| meta_str(x, "frame_id") == call.id.to_string()).collect();
     assert!(res.iter().all(|x| meta_str(x, "command_id") == d2.id.to_string()), "C17: the LATEST definition is active after the restart (not {})", d1.id);
